@@ -19,7 +19,7 @@ import itertools
 from fractions import Fraction as F
 
 from ..loader import AnalysisError
-from ..pe import ConfigRejected, PE, Tensor
+from ..pe import ConfigRejected, PE, Tensor, PyRaise
 from .. import qref, quant
 from ..qir import (Fwd, piecewise_derivative, mk_app, simplify_app)
 from ..nf import NF, show
@@ -180,6 +180,45 @@ def check_gated(rep, cls, kw, segs, unit, cfg, loc, facts):
               facts=facts)
 
 
+def rule_live_use_ste(rep, repo, mod):
+  """R5: `use_ste` is a live option (QNoiseScheduler.set_quantizers assigns
+  it on existing quantizers): a quantizer whose use_ste is assigned after
+  construction has the derivative of a quantizer constructed with that
+  value - the forward values of the two forms are equal, so only the
+  gradient shows a decision that was frozen at construction."""
+  fs = qref.f_tensor()
+  n = 0
+  for cls in qref.ALL_QUANTIZERS:
+    ci = mod.classes.get(cls)
+    params = [p for p, _ in ci.init_params()[0]] if ci else []
+    if "use_ste" not in params or "qnoise_factor" not in params:
+      continue
+    unit = "%s::%s.__call__" % (mod.relpath, cls)
+    for start in (True, False):
+      kw = dict(use_ste=start, qnoise_factor=fs)
+      cfg = "%s(use_ste=%s) then q.use_ste = %s" % (cls, start, not start)
+      try:
+        pe, q = quant.construct(repo, cls, kw)
+        pe.setattr(q, "use_ste", not start)
+        out = pe.call(q, [pe.x_input()], {})
+        ref = quant.build(repo, cls, dict(kw, use_ste=not start))
+      except (ConfigRejected, PyRaise):
+        continue
+      n += 1
+      segs = piecewise_derivative(out.term, phase="infer")
+      rsegs = piecewise_derivative(ref.term, phase="infer")
+      bad = None
+      for lo, hi in merged_regions(segs, rsegs):
+        d, _ = segs_lookup(segs, lo, hi)
+        dr, _ = segs_lookup(rsegs, lo, hi)
+        if d is not None and dr is not None and d != dr and bad is None:
+          bad = "on (%s, %s) d(output)/dx = %s, constructed that way %s" % (
+              lo, hi, show(d, 120), show(dr, 120))
+      rep.check(bad is None, "R5", unit, "use_ste-read-at-construction",
+                "%s: %s" % (cfg, bad), loc=pe.loc_of(out.term), instance=cfg)
+  return n
+
+
 def check_through_helpers(rep, repo, mod):
   ops = {"_round_through": "round", "_sign_through": "sign",
          "_ceil_through": "ceil", "_floor_through": "floor"}
@@ -293,6 +332,8 @@ def run(rep, repo, tier):
   if len(seen_cls) < 13:
     raise AnalysisError("instance-count only %d quantizer classes analysed"
                         % len(seen_cls))
+  if rule_live_use_ste(rep, repo, mod) < 6:
+    raise AnalysisError("instance-count live use_ste assignments")
   rep.require_instances("R1", 1000)
   rep.require_instances("R2", 1000)
   rep.require_instances("R3", 8)
